@@ -337,3 +337,37 @@ def deepen(rng, X, genes, markers, dtype):
         if not changed:
             break
     return X
+
+
+def write_h5ad_csr_permuted(path, X, perm, obs_names, var_names):
+    """h5ad whose X is csr_matrix(X)[:, perm] with the column indices of every
+    row left in the order the permutation produced (not sorted);
+    var_names are the names AFTER the permutation"""
+    import warnings
+    import anndata
+    import numpy as np
+    import pandas as pd
+    import scipy.sparse
+    base = scipy.sparse.csr_matrix(np.asarray(X))
+    n, g = base.shape
+    inv = np.empty(g, dtype=np.int64)
+    inv[np.asarray(perm)] = np.arange(g)        # old column -> new column
+    sp = scipy.sparse.csr_matrix(
+        (base.data.copy(), inv[base.indices].astype(base.indices.dtype),
+         base.indptr.copy()), shape=(n, g))
+    sp.has_sorted_indices = False
+    obs = pd.DataFrame(index=pd.Index([str(o) for o in obs_names],
+                                      name='cell_id'))
+    var = pd.DataFrame(index=pd.Index([str(v) for v in var_names],
+                                      name='gene_id'))
+    with warnings.catch_warnings():
+        warnings.simplefilter('ignore')
+        a = anndata.AnnData(X=sp, obs=obs, var=var)
+        a.write_h5ad(path)
+    import h5py
+    with h5py.File(path, 'r') as f:
+        idx = f['X/indices'][()]
+        ptr = f['X/indptr'][()]
+    unsorted = any((np.diff(idx[ptr[r]:ptr[r + 1]]) < 0).any()
+                   for r in range(n))
+    return unsorted
